@@ -15,6 +15,7 @@ import (
 	"reflect"
 	"runtime"
 	"slices"
+	"strings"
 	"time"
 
 	"github.com/btcsuite/btcd/btcec/v2"
@@ -582,9 +583,15 @@ func (m *Mint) RequestMeltQuote(meltQuoteRequest nut05.PostMeltQuoteBolt11Reques
 	quoteAmount := invoiceSatAmount
 
 	// check if a mint quote exists with the same invoice.
-	_, err = m.db.GetMintQuoteByPaymentHash(bolt11.PaymentHash)
+	mintQuote, err := m.db.GetMintQuoteByPaymentHash(bolt11.PaymentHash)
 	isInternal := false
 	if err == nil {
+		// only the invoice the mint itself issued for that quote can be settled internally.
+		// Anyone can encode another invoice (e.g with a smaller amount) around the same payment hash.
+		if !strings.EqualFold(mintQuote.PaymentRequest, request) {
+			return storage.MeltQuote{},
+				cashu.BuildCashuError("invoice has the payment hash of a mint quote but is not its invoice", cashu.MeltQuoteErrCode)
+		}
 		isInternal = true
 	}
 
@@ -829,7 +836,7 @@ func (m *Mint) MeltTokens(ctx context.Context, meltTokensRequest nut05.PostMeltB
 	// before asking backend to send payment, check if quotes can be settled
 	// internally (i.e mint and melt quotes exist with the same invoice)
 	mintQuote, err := m.db.GetMintQuoteByPaymentHash(meltQuote.PaymentHash)
-	if err == nil {
+	if err == nil && strings.EqualFold(mintQuote.PaymentRequest, meltQuote.InvoiceRequest) {
 		m.logDebugf("quotes '%v' and '%v' have same invoice so settling them internally", meltQuote.Id, mintQuote.Id)
 		meltQuote, err = m.settleQuotesInternally(mintQuote, meltQuote)
 		if err != nil {
